@@ -109,7 +109,7 @@ FRESH_FUNCS = {
 # immutable scalar, i.e. not an object that could be written to or that holds other objects. (Assumption on the library
 # object models: `.name` of a glyph, layer, anchor, component, axis, source, instance, lookup, ... is its name string.)
 SCALAR_LIB_ATTRS = {"name"}
-DEFINITE_KINDS = {"cont", "inst", "cls", "func", "bound", "mod", "glob", "attrs", "super", "extcls", "GS"}
+DEFINITE_KINDS = {"cont", "inst", "cls", "func", "bound", "mod", "glob", "attrs", "super", "extcls", "GS", "UNK"}
 # dunder methods that python (or library code) invokes implicitly on an instance; they are analysed for every
 # instance that is created (see Analysis.implicit_dunders)
 EXPLICIT_DUNDERS = {"__init__", "__post_init__", "__call__"}
@@ -626,6 +626,18 @@ class Analysis:
         self.SRCF = None  # designspace roots: the fonts attached to the source descriptors (what `.font` yields)
         self.src_not = {}  # source blob -> classes none of its objects is an instance of (input domain of the root)
         self.NONE = self.obj("NONE", "NONE", label="None")
+        # UNK: "an untracked value". Numbers, strings, bytes, booleans, enum members, ranges (and the results of library
+        # calls that the catalogue says return nothing of interest) have no abstract object of their own: they cannot
+        # be written to and hold no tracked object. They must nevertheless be VISIBLE in points-to sets, because
+        # fixpoint decisions ("every value of x is an instance of C", "x is always None") quantify over all values an
+        # expression can have: UNK is produced by every expression form that creates such a value (literals,
+        # operators, f-strings, comparisons, scalar constructors and builtins, `.name`, calls of library code with an
+        # empty result) and flows like any other object. Invariant: if in some run an expression evaluates to a value
+        # that is neither None nor represented by another abstract object, UNK is in its points-to set. UNK is
+        # never None (producers whose value may be None add NONE themselves), is of unknown class (no isinstance
+        # verdict), is never a mutation target; its attributes / elements / call results are UNK again, and a method
+        # called on it returns UNK, None or a NEW container of untracked values (str.split()).
+        self.UNK = self.obj("UNK", "UNK", label="untracked value")
         self.EXC = self.obj("cont", "EXC", label="raised exceptions")
         self.alarms = {}
         self.sites = {}  # mutation site -> set of target labels (obligations)
@@ -654,6 +666,7 @@ class Analysis:
         self._folded = {}
         self.folded_calls = set()
         self.dunder_insts = defaultdict(set)
+        self.has_dunders = set()  # instances whose class defines an implicit special method in analysed code
         self.store_origin = None  # (context key, statement) while the values of an attribute-store statement are recorded
         self.pre_add = False  # True while an add that certainly precedes the container's escape is recorded
         self.broken_inv = set()  # (class, field) whose constructor-established invariant is violated by some other store
@@ -812,7 +825,7 @@ class Analysis:
         if o is None:
             return {self.NONE}
         if self.is_scalar(o):
-            return set()
+            return {self.UNK}
         # any other object that exists when the modules have been imported: module-/class-level state. It is
         # identified by the python object itself (the same list imported under two names is ONE object); its
         # contents at import time are read from the object, later additions are tracked like for containers.
@@ -855,6 +868,8 @@ class Analysis:
             if o in seen:
                 continue
             seen.add(o)
+            if o.kind == "UNK":
+                continue  # an immutable value: the statement raises, or rebinds (x += 1); nothing is written
             rec.add(o.label if o.kind in ("SRC", "GS", "glob") or (o.kind == "inst" and isinstance(o.key, tuple) and o.key[-1] == "root") else o.kind)
             if o.kind == "SRC":
                 a = Alarm(st, what, "SRC", self.cur.key)
@@ -869,6 +884,10 @@ class Analysis:
                 if _modname(o.py).startswith(self.pkg):
                     a = Alarm(st, what, o.label, self.cur.key)
                     self.globals_mut.setdefault(a.key(), a)
+            elif o.kind == "mod":
+                # `module.attr = v` (any module, also a library's): module-level state is written
+                a = Alarm(st, what, o.label, self.cur.key)
+                self.globals_mut.setdefault(a.key(), a)
             if o.through and o.target:
                 self.mutate(o.target, node, what, seen)
 
@@ -963,7 +982,7 @@ class Analysis:
         return m(node, ctx)
 
     def e_Constant(self, node, ctx):
-        return {self.NONE} if node.value is None else set()
+        return {self.NONE} if node.value is None else {self.UNK}
 
     def lookup(self, name, ctx, line=None):
         c = ctx
@@ -1844,7 +1863,7 @@ class Analysis:
 
     def e_Name(self, node, ctx):
         if node.id in self.assume:
-            return set()
+            return {self.UNK}  # (a bool)
         lt = self.literal_loop_targets(ctx.func).get(node.id)
         if lt is not None and not (lt[0] <= node.lineno <= lt[1]):
             # `for x in (a, b): ...` is the only binding of x: after the loop x is the LAST element
@@ -1883,8 +1902,12 @@ class Analysis:
                     out.add(self.SRCF)  # descriptor.font (designspace roots)
                 elif name not in SCALAR_LIB_ATTRS:
                     out.add(o)
+                else:
+                    out.add(self.UNK)
             elif o.kind == "NONE":
                 continue
+            elif o.kind == "UNK":
+                out.add(o)  # attribute of an untracked value: untracked (its methods: method_call)
             elif o.kind == "inst":
                 out |= self.F[(o, name)] | self.F[(o, "*")]  # "*": stored by setattr() with a computed name
                 if o.alias_of is not None and name == o.own and ctx is not None and self.must_kill_attr(ctx.func) == name:
@@ -1892,7 +1915,7 @@ class Analysis:
                     out |= self.F[(o.alias_of, name)]
                 k, v = self.class_attr(o.py, name)
                 if k is not None:
-                    out |= self.bind(v, o, k, name)
+                    out |= self.bind(v, o, k, name, node, ctx)
                 for kk in o.py.__mro__:  # values stored on the class objects by analysed code (Cls.attr = v)
                     co = self.objs.get(("cls", f"{kk.__module__}.{kk.__qualname__}"))
                     if co is not None and (co, name) in self.F:
@@ -1910,6 +1933,7 @@ class Analysis:
                     f = v.__func__ if isinstance(v, staticmethod) else v
                     out |= self.wrap_py(f, f"{o.py.__qualname__}.{name}")
             elif o.kind == "mod":
+                out |= self.F[(o, name)] | self.F[(o, "*")]  # stored by analysed code (module.attr = v)
                 if hasattr(o.py, name):
                     out |= self.wrap_py(getattr(o.py, name), f"{o.py.__name__}.{name}")
             elif o.kind == "super":
@@ -1918,7 +1942,7 @@ class Analysis:
                 if cls in mro:
                     for k in mro[mro.index(cls) + 1:]:
                         if name in k.__dict__:
-                            out |= self.bind(k.__dict__[name], selfobj, k, name)
+                            out |= self.bind(k.__dict__[name], selfobj, k, name, node, ctx)
                             break
             elif o.kind == "glob":
                 out |= self.F[(o, name)] | self.F[(o, "*")]
@@ -1937,6 +1961,20 @@ class Analysis:
                     # library objects hand their constructor arguments back only through the catalogued
                     # protocols: keyword-named attributes, pens' output pen, container elements)
                     out.add(o)
+                elif not known:
+                    bm = None
+                    if o.kind == "cont":
+                        # a method of a builtin container taken as a value (add = xs.append): a bound builtin method
+                        t = self.pytype_of(o)
+                        for T in ((t,) if t in (list, dict, set, tuple, frozenset) else (list, dict, set)):
+                            m = getattr(T, name, None)
+                            if isinstance(m, (types.MethodDescriptorType, types.WrapperDescriptorType, types.BuiltinFunctionType)):
+                                bm = self.obj("bound", (name, o.key, "cont", "builtin"), m, f"bound {T.__name__}.{name}")
+                                bm.self_ = o
+                                break
+                    # else a scalar attribute of a library object (.name), an attribute of a function object (__name__, ...):
+                    # an untracked value
+                    out.add(bm if bm is not None else self.UNK)
         return out
 
     @staticmethod
@@ -1966,6 +2004,9 @@ class Analysis:
                 continue
             if o.kind == "NONE":
                 continue
+            if o.kind == "UNK":
+                out.add(o)
+                continue
             known_names = o.kind in ("inst", "cls", "mod")
             for a in self.F.attrs_of(o):
                 if a != "[]" and not (isinstance(a, str) and (a.startswith("k:") or a.startswith("dunder:"))) and not isinstance(a, tuple):
@@ -1994,7 +2035,7 @@ class Analysis:
                 out.add(o)  # unknown attribute of a library object: part of its own state
         return out
 
-    def bind(self, v, selfobj, owner, name):
+    def bind(self, v, selfobj, owner, name, node=None, ctx=None):
         f = v
         if isinstance(f, (property, functools.cached_property)):
             # reading the attribute runs the getter (a cached property runs it once and then returns the same
@@ -2002,6 +2043,12 @@ class Analysis:
             getter = f.fget if isinstance(f, property) else f.func
             fn = self.func_of(getter) if getter else None
             if fn is not None:
+                if ctx is not None and node is not None and hasattr(node, "lineno"):
+                    # analysed code runs at this attribute read (strong_field_read must know)
+                    rk = (ctx.key, node.lineno, getattr(node, "col_offset", 0))
+                    if rk not in self.repo_calls:
+                        self.repo_calls.add(rk)
+                        self.changed = True
                 return self.call_func(fn, [{selfobj}], {}, None, None)
             return set()
         if isinstance(f, staticmethod):
@@ -2029,7 +2076,7 @@ class Analysis:
 
     def e_Attribute(self, node, ctx):
         if node.attr in self.assume:
-            return set()
+            return {self.UNK}
         base = self.ev(node.value, ctx)
         if node.attr == "__class__":
             return self.classes_of(base)
@@ -2125,8 +2172,49 @@ class Analysis:
                     return None  # a call, property read or operator that runs analysed code
                 if isinstance(n, ast.Call) and isinstance(n.func, ast.Name) and n.func.id in ("setattr", "delattr", "exec", "eval"):
                     return None
+                if self.has_dunders and isinstance(n, (ast.Name, ast.Attribute, ast.Subscript)) and isinstance(getattr(n, "ctx", None), ast.Load) \
+                        and not (n is node or (isinstance(n, ast.Name) and n.id == x)):
+                    # special methods of analysed classes run without a visible call (operators, str(), len(), iteration,
+                    # subscripts, truth tests, library code that is handed the object): if a value that occurs in these
+                    # statements is -- or holds, two levels deep -- an instance of a class with such methods, analysed code
+                    # may run here. (Every value in a statement comes from a variable, an attribute or subscript read, a
+                    # call of analysed code -- excluded above -- or a library call, whose result derives from its arguments.)
+                    vs = self._pure_read(n, ctx)
+                    if vs is None:
+                        return None
+                    vs = set(vs)
+                    for _ in range(2):
+                        vs |= self.elements(vs)
+                    if any(o.kind == "inst" and o in self.has_dunders for o in vs):
+                        return None
+        if self.has_dunders:
+            xs = self._pure_read(node.value, ctx)
+            if xs is None or any(o.kind == "inst" and o in self.has_dunders for o in xs):
+                return None  # (x itself: x.f may go through its own __getattr__ / be touched by its own special methods)
         self.strong_reads.add((self.site(node)[0], node.lineno, f"{x}.{f}"))
         return self.ev(found.value, ctx)
+
+    def _pure_read(self, n, ctx):
+        """value of a Name / Attribute / Subscript load whose evaluation runs no analysed code and allocates nothing
+        (chains of those over a Name); None if the expression is of another form"""
+        if isinstance(n, ast.Name):
+            return self.ev(n, ctx)
+        if isinstance(n, ast.Attribute):
+            b = self._pure_read(n.value, ctx)
+            if b is None:
+                return None
+            out = set()
+            for o in b:
+                if o.kind == "inst":
+                    out |= self.F[(o, n.attr)] | self.F[(o, "*")]
+                elif o.kind in ("SRC", "GS", "ext", "glob", "cont", "UNK"):
+                    out.add(o)
+                    out |= self.F[(o, n.attr)] if o.kind in ("ext", "glob", "cont") else set()
+            return out
+        if isinstance(n, ast.Subscript):
+            b = self._pure_read(n.value, ctx)
+            return None if b is None else self.elements(b)
+        return set() if isinstance(n, ast.Constant) else None
 
     CTYPES = {"list": list, "listcomp": list, "sorted": list, "set": set, "setcomp": set, "tuple": tuple, "namedtuple": tuple, "dict": dict,
               "dictcomp": dict, "OrderedDict": dict, "defaultdict": dict, "Counter": dict, "frozenset": frozenset, "*args": tuple, "**kwargs": dict,
@@ -2199,7 +2287,7 @@ class Analysis:
         for o in objs:
             if o.kind == "inst":
                 out |= self.wrap_py(o.py)
-            elif o.kind in ("SRC", "GS", "ext"):
+            elif o.kind in ("SRC", "GS", "ext", "UNK", "cont", "glob"):
                 out.add(self.obj("extcls", o.kind, None, f"class of {o.label}"))
         return out
 
@@ -2207,8 +2295,8 @@ class Analysis:
         out = set()
         cache, ver = self._ecache, self.version
         for o in objs:
-            if o.kind in ("SRC", "GS"):
-                out.add(o)
+            if o.kind in ("SRC", "GS", "UNK"):
+                out.add(o)  # (the characters of a string, the numbers of a range: untracked values again)
                 continue
             if o.kind in ("NONE", "cls", "mod", "func", "bound"):
                 continue
@@ -2258,7 +2346,7 @@ class Analysis:
                 if ck == ctx.key and nm == node.value.id and f[0] == "sub" and f[1] == idx:
                     _, _, classes, positive = f
                     if positive and all(c in self.SCALAR_TYPES for c in classes):
-                        return set()
+                        return {self.UNK}
                     r = {o for o in r if self.instance_verdict(o, classes) in (None, positive)}
             return r
         if idx is not None:
@@ -2285,7 +2373,7 @@ class Analysis:
         unknown key (field "[]"); entries stored under OTHER constant keys cannot be the result."""
         out = set()
         for o in objs:
-            if o.kind in ("SRC", "GS"):
+            if o.kind in ("SRC", "GS", "UNK"):
                 out.add(o)
             elif o.kind in ("NONE", "cls", "mod", "func", "bound"):
                 continue
@@ -2486,17 +2574,32 @@ class Analysis:
                         out |= self.F[(o, nm)]
         if conts:
             return out | self.new_cont(node, self.elements(conts), "binop")
-        return out
+        return out | {self.UNK}  # arithmetic / string operators on untracked values
 
     def e_Compare(self, node, ctx):
         self.ev(node.left, ctx)
         for c in node.comparators:
             self.ev(c, ctx)
-        return set()
+        out = {self.UNK}
+        for o in self.ev(node.left, ctx) | {x for c in node.comparators for x in self.ev(c, ctx)}:
+            if o.kind == "inst":  # a rich-comparison / __contains__ method of an analysed class: whatever it returns
+                for nm in ("__eq__", "__ne__", "__lt__", "__le__", "__gt__", "__ge__", "__contains__"):
+                    out |= self.F[(o, "dunder:" + nm)]
+        return out
 
     def e_UnaryOp(self, node, ctx):
-        self.ev(node.operand, ctx)
-        return set()
+        v = self.ev(node.operand, ctx)
+        out = {self.UNK}
+        if not isinstance(node.op, ast.Not):
+            # -x / +x / ~x: implemented by the operand's class; for a library or source object: a new library object
+            lib = {o for o in v if o.kind in ("SRC", "GS", "ext", "glob", "cont")}
+            if lib:
+                out |= self.new_ext(node, lib, through=False)
+            for o in v:
+                if o.kind == "inst":
+                    for nm in ("__neg__", "__pos__", "__invert__"):
+                        out |= self.F[(o, "dunder:" + nm)]
+        return out
 
     def e_JoinedStr(self, node, ctx):
         for v in node.values:  # the embedded expressions ARE evaluated (calls, allocations); the result is a str
@@ -2504,7 +2607,7 @@ class Analysis:
                 self.ev(v.value, ctx)
                 if v.format_spec is not None:
                     self.ev(v.format_spec, ctx)
-        return set()
+        return {self.UNK}
 
     def e_Lambda(self, node, ctx):
         return {self.closure(node, ctx)}
@@ -2595,6 +2698,8 @@ class Analysis:
             callees = set()
             for o in recv:
                 r = self.method_call(o, f.attr, node, args, kwargs, star_kw, ctx, callees)
+                if not r and o.kind in ("SRC", "GS", "ext", "cont", "glob"):
+                    r = {self.UNK, self.NONE}  # a method of library code without tracked result: an untracked value or None
                 out |= r
             for c in callees:
                 out |= self.apply(c, node, args, kwargs, star_kw, ctx)
@@ -2649,7 +2754,7 @@ class Analysis:
             if name == "copy":
                 return self.shallow_copy(node, {o})
             if name == "items":
-                return self.rows(node, [set(), {o}], "items")
+                return self.rows(node, [{o}, {o}], "items")  # (keys of a source mapping may be tuples etc.: source values)
             if name in SHALLOW_FRESH_METHODS:
                 # a NEW collection / record, but what it holds are the source's own objects
                 return self.shallow_copy(node, {o})
@@ -2666,6 +2771,10 @@ class Analysis:
             return {o}
         if o.kind == "NONE":
             return set()
+        if o.kind == "UNK":
+            # a method of a str / bytes / number / ...: an untracked value, None, or a NEW list of untracked values
+            # (split(), splitlines()) -- which is a container of its own that tracked objects can be put into later
+            return {self.UNK, self.NONE} | self.new_cont(node, {self.UNK}, "of-untracked")
         if o.kind == "inst":
             k, v = self.class_attr(o.py, name)
             if k is not None and k.__module__.startswith(self.pkg):
@@ -2677,7 +2786,7 @@ class Analysis:
             if k is None and not self.F[(o, name)]:
                 return set()
             # inherited from a builtin container (e.g. _GlyphSet(dict))
-            return out | self.cont_method(o, name, node, args, kwargs, A)
+            return out | (self.cont_method(o, name, node, args, kwargs, A) or {self.UNK, self.NONE})
         if o.kind == "cont":
             return self.cont_method(o, name, node, args, kwargs, A)
         if o.kind == "glob":
@@ -2716,7 +2825,7 @@ class Analysis:
             if name in ("get", "__getitem__"):
                 return self.elements({o}) | ({self.NONE} if name == "get" and len(args) < 2 else set()) | {x for _, s_ in args[1:] for x in s_}
             if name == "items":
-                return self.rows(node, [set(), self.elements({o})], "items")
+                return self.rows(node, [{self.UNK, self.rep_of(o)}, self.elements({o})], "items")
             if name in ("findDefault", "getSourceByName") or name.startswith("find"):
                 return {o}
             if name == "deepcopyExceptFonts":
@@ -3062,7 +3171,7 @@ class Analysis:
                     for kk, (_, s_) in kwargs.items():
                         self.add(self.F[(c.self_, "[]")], s_)
                     return set()
-                return self.cont_method(c.self_, nm, node, args, kwargs, A)
+                return self.cont_method(c.self_, nm, node, args, kwargs, A) or {self.UNK, self.NONE}
             return set()
         if c.kind == "cls":
             return self.instantiate(c, node, args, kwargs, star_kw, ctx)
@@ -3075,7 +3184,10 @@ class Analysis:
                 for b in self.bind(v, c, k, "__call__"):
                     out |= self.apply(b, node, args, kwargs, star_kw, ctx)
             return out
-        if c.kind in ("SRC", "GS", "ext"):
+        if c.kind in ("SRC", "GS", "ext", "UNK"):
+            if c.kind in ("SRC", "GS"):
+                # a callable taken from the source (f = glyph.appendAnchor; f(...)): possibly a bound method that modifies it
+                self.mutate({c}, node, "call of a value taken from the source")
             # calling something obtained from a library/source object (e.g. a class stored on it)
             self.invoke_callbacks(self.all_args(args, kwargs, star_kw), node, ctx)
             return self.new_ext(node, self.all_args(args, kwargs, star_kw), through=False)
@@ -3111,7 +3223,7 @@ class Analysis:
             if pycls in (int, float, str, bool, bytes, type, object):
                 if pycls is type and len(args) == 1:
                     return self.classes_of(args[0][1])
-                return set()
+                return {self.UNK}
             # (assumption: a library CONSTRUCTOR may call functions / bound methods / partials it is given, but
             # does not call other callable instances -- e.g. filter objects kept in a namespace)
             cb_results = self.invoke_callbacks(A, node, ctx, include_inst=name in ITER_BUILTINS or mod == "itertools")
@@ -3154,7 +3266,7 @@ class Analysis:
             if name == "partial":
                 return self.new_partial(node, args, kwargs)
             if name == "enumerate":
-                return self.rows(node, [set(), self.iter_elements(args[0][1]) if args else set()], name)
+                return self.rows(node, [{self.UNK}, self.iter_elements(args[0][1]) if args else set()], name)
             if name in ITER_BUILTINS or mod == "itertools":
                 return self.new_cont(node, self.iter_elements(A) | cb_results | {x for x in A if x.kind == "func"}, name)
             # library object: may keep references to its arguments; a pen forwards what is drawn into it to
@@ -3200,9 +3312,17 @@ class Analysis:
         if fn is not None and k.__module__.startswith(self.pkg):
             self.call_func(fn, [{o}] + self.argsets(args), {kk: v for kk, (_, v) in kwargs.items()}, node, ctx, [(None, {o})] + args, kwargs, star_kw)
         elif hasattr(pycls, "__dataclass_fields__"):
-            names = list(pycls.__dataclass_fields__)
-            for n, (_, s) in zip(names, args):
-                self.add(self.F[(o, n)], s)
+            import dataclasses as _dc0
+
+            # positional arguments bind the fields that take part in __init__, in declaration order
+            names = [f_.name for f_ in _dc0.fields(pycls) if f_.init]
+            for i_, (an_, s) in enumerate(args):
+                if an_ == "*":
+                    for n in names[i_:]:  # a starred argument: any of the remaining fields
+                        self.add(self.F[(o, n)], s)
+                    break
+                if i_ < len(names):
+                    self.add(self.F[(o, names[i_])], s)
             for kk, (_, s) in kwargs.items():
                 self.add(self.F[(o, kk)], s)
             for n in names:
@@ -3283,6 +3403,9 @@ class Analysis:
                     continue
                 if nm in BINARY_DUNDERS:
                     self.dunder_insts[nm].add(o)
+                if o not in self.has_dunders:
+                    self.has_dunders.add(o)
+                    self.changed = True
                 a = fn.node.args
                 npos = len(a.posonlyargs + a.args)
                 other = set(self.dunder_insts[nm]) if nm in BINARY_DUNDERS else set()
@@ -3290,6 +3413,13 @@ class Analysis:
                 self.add(self.F[(o, "dunder:" + nm)], r)
 
     def lib_call(self, name, py, node, args, kwargs, star_kw, ctx):
+        r = self.lib_call_(name, py, node, args, kwargs, star_kw, ctx)
+        if not r and name != "super":
+            # no tracked result: an untracked value (len, int, str, ...) or None (print, setattr, warn, ...)
+            return {self.UNK} if (name in PURE_BUILTINS and name != "print") else {self.UNK, self.NONE}
+        return r
+
+    def lib_call_(self, name, py, node, args, kwargs, star_kw, ctx):
         A = self.all_args(args, kwargs, star_kw)
         if name in ("exec", "eval", "globals", "locals", "__import__", "__build_class__"):
             self.flag(node, f"{name}()")
@@ -3357,7 +3487,7 @@ class Analysis:
             fill = ((kwargs.get("fillvalue") or (None, {self.NONE}))[1]) if name == "zip_longest" else set()
             return self.rows(node, [self.iter_elements(s_) | fill for _, s_ in args], name)
         if name == "enumerate":
-            return self.rows(node, [set(), self.iter_elements(args[0][1]) if args else set()], name)
+            return self.rows(node, [{self.UNK}, self.iter_elements(args[0][1]) if args else set()], name)
         if name == "partial":
             return self.new_partial(node, args, kwargs)
         if name in ITER_BUILTINS:
@@ -3385,7 +3515,7 @@ class Analysis:
                 val = args[2][1] if len(args) > 2 else set()
                 names = (self.strs(args[1][0], ctx) or None) if len(args) >= 2 and args[1][0] not in (None, "*") else None
                 for o in args[0][1]:
-                    if o.kind in ("SRC", "GS", "NONE"):
+                    if o.kind in ("SRC", "GS", "NONE", "UNK"):
                         continue
                     if names is not None:
                         for nm in names:
@@ -3784,7 +3914,7 @@ class Analysis:
 
     def default_value(self, fn, d):
         if isinstance(d, ast.Constant):
-            return {self.NONE} if d.value is None else set()
+            return {self.NONE} if d.value is None else {self.UNK}
         dctx = self.def_ctx(fn)
         saved = self.cur
         self.cur = dctx
@@ -3836,7 +3966,7 @@ class Analysis:
                         if sfn is not None:
                             self.call_func(sfn, [{o}, set(val)], {}, target, ctx)
                             continue
-                if o.kind not in ("SRC", "GS", "NONE"):
+                if o.kind not in ("SRC", "GS", "NONE", "UNK"):
                     v2 = val
                     if o.kind == "inst":
                         v2 = self.ctor_versioned(o, target, val, ctx, node)
@@ -3855,7 +3985,7 @@ class Analysis:
             if isinstance(target.slice, ast.Slice):
                 val = self.elements(val)  # x[i:j] = iterable stores the ELEMENTS of the iterable
             for o in base:
-                if o.kind in ("SRC", "GS", "NONE"):
+                if o.kind in ("SRC", "GS", "NONE", "UNK"):
                     continue
                 if keyobjs and o.kind in ("cont", "inst", "ext", "glob"):
                     self.add(self.F[(o, "keys")], keyobjs)
@@ -4009,7 +4139,7 @@ class Analysis:
             if f[0] == "isinstance":
                 _, classes, positive = f
                 if positive and all(c in self.SCALAR_TYPES for c in classes):
-                    return set()
+                    return {self.UNK}
                 keep = set()
                 for o in vals:
                     v = self.instance_verdict(o, classes)
@@ -4167,8 +4297,37 @@ class Analysis:
                                 v = v | self.instantiate(o, s, [], {}, set(), ctx)
                         self.add(self.F[(self.EXC, "[]")], {o for o in v if o.kind in ("inst", "ext", "SRC", "GS", "cont")})
         elif isinstance(s, ast.Match):
-            self.ev(s.subject, ctx)
+            subj = self.ev(s.subject, ctx)
             for c in s.cases:
+                # names captured by the pattern: the subject, or something taken out of it by the sub-patterns (an
+                # element, a mapping value, an attribute) -- one level per level of pattern nesting; a class pattern
+                # reads attributes (which may run analysed properties)
+                depth = 0
+                stack = [(c.pattern, 0)]
+                caps = []
+                while stack:
+                    pt, d_ = stack.pop()
+                    depth = max(depth, d_)
+                    if isinstance(pt, (ast.MatchAs, ast.MatchStar)) and pt.name:
+                        caps.append(pt)
+                    if isinstance(pt, ast.MatchMapping) and pt.rest:
+                        caps.append(pt)
+                    for ch in ast.iter_child_nodes(pt):
+                        if isinstance(ch, ast.pattern):
+                            stack.append((ch, d_ + (0 if isinstance(pt, (ast.MatchAs, ast.MatchOr)) else 1)))
+                        elif isinstance(ch, ast.expr):
+                            self.ev(ch, ctx)
+                reach = set(subj)
+                for _ in range(depth):
+                    reach |= self.elements(reach) | self.getattr_any(reach, s, ctx)
+                for pt in caps:
+                    if isinstance(pt, ast.MatchAs):
+                        self.assign(ast.copy_location(ast.Name(id=pt.name, ctx=ast.Store()), pt), reach, ctx, pt)
+                    else:
+                        nm = pt.name if isinstance(pt, ast.MatchStar) else pt.rest
+                        self.assign(ast.copy_location(ast.Name(id=nm, ctx=ast.Store()), pt), self.new_cont(pt, reach, "starred" if isinstance(pt, ast.MatchStar) else "dict"), ctx, pt)
+                if c.guard is not None:
+                    self.ev(c.guard, ctx)
                 self.run_body(c.body, ctx)
 
     # ---- driver ---------------------------------------------------------------------------------------------------------
@@ -4186,13 +4345,13 @@ class Analysis:
         rooted = {id(o) for _fn, pos, kw in self.roots for s_ in list(pos) + list(kw.values()) for o in s_}
         # (objects handed to a root keep their identity, so that a root argument obtained from an earlier run -- e.g. the
         # instance returned by a factory root -- IS the object the next run allocates at the same site)
-        keep = {k: v for k, v in self.objs.items() if k[0] in ("SRC", "GS", "NONE") or k == ("cont", "EXC") or id(v) in rooted
+        keep = {k: v for k, v in self.objs.items() if k[0] in ("SRC", "GS", "NONE", "UNK") or k == ("cont", "EXC") or id(v) in rooted
                 or (k[0] == "inst" and isinstance(k[1], tuple) and k[1][-1] == "root")}
         self.objs = keep
         self.ctxs.clear(); self.alarms.clear(); self.sites.clear(); self.globals_mut.clear()
         self.unknown_calls.clear(); self.cut_hits.clear(); self.repo_calls.clear(); self.strong_reads.clear()
         self.unsupported.clear()
-        self.dunder_insts.clear()
+        self.dunder_insts.clear(); self.has_dunders.clear()
         self.assumed_const_globs.clear()
         self.mutated_globs.clear()
         self.used_inv.clear()
